@@ -254,6 +254,7 @@ func (hsScenario) Run(s *simrt.Sim, plan interface{}, opts map[string]string) (*
 			}
 		}
 		ok0, ok1 := alive(0) && errs[0] == nil && sess[0] != nil, alive(1) && errs[1] == nil && sess[1] != nil
+		var lateVerdict func()
 		switch {
 		case ok0 && ok1:
 			simrt.Count("probe.hs_both_ok", 1)
@@ -332,6 +333,12 @@ func (hsScenario) Run(s *simrt.Sim, plan interface{}, opts map[string]string) (*
 					return
 				}
 				t["v2_no_ack"] = "server_failed_after_metadata"
+				// the recorded finding must not hide what else may be wrong in this run: it is reported after the
+				// clean-up checks below have passed
+				lateVerdict = func() {
+					simrt.FailTagged("C12.one_sided", t, "session establishment succeeded on the %s but failed on the %s (%v)", names[who], names[other], errs[other])
+				}
+				break
 			}
 			simrt.FailTagged("C12.one_sided", t, "session establishment succeeded on the %s but failed on the %s (%v)", names[who], names[other], errs[other])
 			return
@@ -376,7 +383,11 @@ func (hsScenario) Run(s *simrt.Sim, plan interface{}, opts map[string]string) (*
 					nm = append(nm, e.Name())
 				}
 				simrt.FailTagged("C12.resource_left", tags, "files left behind in the shared-memory directory: %v", nm)
+				return
 			}
+		}
+		if lateVerdict != nil {
+			lateVerdict()
 		}
 	}
 	return pm, main
